@@ -400,7 +400,8 @@ def split_responses(data: bytes, methods: list | None = None, closed: bool = Fal
         if cl and not re.fullmatch(rb"\d+", cl[0]):
             return out, ("malformed", pos, f"bad Content-Length {cl[0]!r}")
         no_body = status < 200 or status in (204, 304) or method == b"HEAD"
-        if status == 101:
+        if status == 101 or (method == b"CONNECT" and 200 <= status < 300):
+            # 101, or a 2xx answer to CONNECT: the connection becomes a tunnel after the head
             resp.update(complete=True, end=p, framing="upgrade")
             out.append(resp)
             return out, ("upgraded", p)
